@@ -243,3 +243,36 @@ def der_tree_mutations(data):
         if tag == 0x03 and body:
             for u in (1, 7, 8, 255):
                 yield "tree:bitstring_unused_%d" % u, edit(lambda l, i, u=u: l.__setitem__(i, [0x03, None, bytes([u]) + (wrap and der_serialise(kids) or body[1:]), b""]))
+
+
+# ------------------------------------------------------------------ bytes-like containers
+
+
+def containers(b, wide=True, exotic=True):
+    """The same bytes in every kind of bytes-like object the API documents as legal input
+    (bytes, bytearray, memoryview, array.array, and views of those): (name, object) pairs."""
+    import array
+    b = bytes(b)
+    out = [("bytes", b), ("bytearray", bytearray(b)), ("memoryview", memoryview(b)), ("memoryview_writable", memoryview(bytearray(b))),
+           ("array_B", array.array("B", b))]
+    if exotic:
+        sb = array.array("b")
+        sb.frombytes(b)
+        out.append(("array_b_signed", sb))
+        out.append(("memoryview_cast_b", memoryview(b).cast("b")))
+        if len(b) >= 2 and len(b) % 2 == 0:
+            out.append(("memoryview_2d", memoryview(b).cast("B", shape=[2, len(b) // 2])))
+    if wide and b:
+        for code in ("H", "I"):
+            size = array.array(code).itemsize
+            if len(b) % size == 0:
+                a = array.array(code)
+                a.frombytes(b)
+                out.append(("array_" + code, a))
+                out.append(("memoryview_array_" + code, memoryview(a)))
+    return out
+
+
+def pick_container(b, i, wide=True, exotic=True):
+    cs = containers(b, wide, exotic)
+    return cs[i % len(cs)]
